@@ -1344,6 +1344,13 @@ class ProcessPoolExecutor(Executor):
                 executor_manager_thread.join()
                 _threads_wakeups.pop(executor_manager_thread, None)
 
+        if not wait and executor_manager_thread is not None:
+            # The executor manager thread is still running the pending jobs.
+            # If a worker exits meanwhile (idle timeout, memory leak), it needs
+            # the objects below to respawn a worker, so keep them until the
+            # thread is joined or the executor is collected.
+            return
+
         # To reduce the risk of opening too many files, remove references to
         # objects that use file descriptors.
         self._executor_manager_thread = None
